@@ -19,9 +19,9 @@ ROWS = {
   text='Lean theorems: round trip for every well-formed layout and every in-range assignment (induction on the '
        'layout), wire format (declaration order, little-endian, LSB-first bit-fields, neighbours undisturbed), and '
        'kernel-decided facts over the registry regenerated from the live tree (all 282 classes constructible, '
-       'well-formed, each request with exactly one response counterpart). Tie: per-class differential run of the '
+       'well-formed, each request with exactly one response counterpart); completion codes 1..255 are encoded as byte 0 and decoding stops at them (nonok_cc_encoded_and_stops, registry_cc_placement, registry_nonok_cc; the real encode_message is called with all 255 codes); what registry[...] and the create_* functions RETURN is the id pairing, FooReq <-> FooRsp (registry_lookup over Gen/RegistryLookup.lean); 21 theorems. Tie: per-class differential run of the '
        'real encode/decode against the compiled Lean codec.',
-  note='translator harness/translate/registry.py (regenerates Gen/Registry.lean from the imported classes); '
+  note='translators harness/translate/registry.py (regenerates Gen/Registry.lean from the imported classes) and registry_lookup.py (what the lookups return, as indices); '
        'hand-written model Model/Codec.lean validated by correspondence; round trip stated for completion_code = 0',
   tech='Lean 4 proof (induction over layouts, decide +kernel over generated registry) + translator + differential correspondence'),
  'C02': dict(
@@ -97,7 +97,7 @@ ROWS = {
  'C10': dict(
   text='Lean theorems for every device content, area size, offset, length and per-request limit >= 2: read_fru_data '
        'returns exactly the stored slice, the full read the whole area, every request names the caller\'s FRU id, '
-       'write stores the bytes contiguously and raises on a short acknowledgement; a write of which the first k bytes were stored before it failed, resumed from offset+k, leaves what one complete write stores (write_resumed_exact). The loops of fru.py are translated '
+       'write stores the bytes contiguously and raises on a short acknowledgement; a write of which the first k bytes were stored before it failed, resumed from offset+k, leaves what one complete write stores (write_resumed_exact); all write theorems for every write_length 1..255 (write_*_any_chunk; the harness assigns ipmi.write_length: 8 named sizes + random, all in thorough) and an acknowledgement larger than the chunk raises; 18 theorems. The loops of fru.py are translated '
        'from the AST on every run (Gen/Loops10.lean) and run against a Lean reference device.',
   note='translator harness/translate/loops10.py; reference device Spec/FruDevice.lean (rejects or serves short); area '
        'parsers are C15; differential run compares outcome, bytes, full request trace and final device state; history stream: every single case again as 2nd operation of one Ipmi object, directed and random sequences of 2..6 operations incl. refused reads and writes that fault at chunk k (Spec.Fru.respondF) and are resumed, each step judged against the contents at its start and compared with the stateless model',
@@ -132,7 +132,7 @@ ROWS = {
        'outcome tree (depth 5/8, budgets 1..6) on the real helpers with scripted callables; time.sleep recorded; Model/SdrXfer.lean on a scripted byte-level device, renewed-id variant probed',
   tech='Lean 4 proof (induction on the budget / outcome stream) + translator + exhaustive outcome-tree correspondence'),
  'C14': dict(
-  text='21 Lean theorems over ALL schedules of an interleaving model of one Rmcp interface shared by any number of '
+  text='24 Lean theorems over ALL schedules of an interleaving model of one Rmcp interface shared by any number of '
        'application threads, its own keep-alive loop (call_repeatedly: the interval elapses any number of times at '
        'any moment) and one thread that ends with close_session: each caller gets its own reply; exchanges are not '
        'interleaved on the socket; session sequence numbers are strictly increasing over the whole wire log including '
@@ -140,7 +140,7 @@ ROWS = {
        'stopper\'s join; every maximal run ends with all calls made, Close Session last, the session deactivated and '
        'the keep-alive thread terminated. The model has both variants of the stopper: as shipped (event.set only) a '
        'concrete schedule is PROVED to put the keep-alive\'s Get Device ID after Close Session with a repeated '
-       'sequence number (defect found and fixed in /repo, cd1ae83); with the join the property is proved. Second variant (sequence number allocated inside the lock, fix b0e0b42): rq_seq_distinct_on_wire for every schedule, late_reply_cannot_match; racy_seq_asShipped_counterexample. Lock '
+       'sequence number (defect found and fixed in /repo, cd1ae83); with the join the property is proved. Second variant (sequence number allocated inside the lock, fix b0e0b42): rq_seq_distinct_on_wire for every schedule, late_reply_cannot_match; racy_seq_asShipped_counterexample. Today\'s source is equated with the safe variant by a theorem (source_is_safe_variant, today_all_schedules: no variant hypothesis left). Lock '
        'scope, packing place, sequence-number updates, the `activated` guard, the keep-alive loop, what the stopper '
        'does and the shape of close_session are re-read from the AST of rmcp.py / session.py on every run '
        '(Gen/Threads.lean, theorem source_shape). The model\'s atomic steps are validated by trace inclusion: real '
@@ -157,7 +157,7 @@ ROWS = {
  'C15': dict(
   text='Lean theorems: parse(encode img) = img for every abstract FRU image (all areas, four text encodings, custom '
        'fields, multi-records incl. PICMG), acceptance implies all zero-sum checksums, hence any single alteration of '
-       'a covered byte is rejected - for an info-area length byte: acceptance implies a declared length >= 1 unit inside the data with a zero sum over exactly that span, which contains the byte (0 and beyond-data rejected; length_byte_limit shows no reader can do more), on the file and the device path; OEM C0h records of other manufacturers are undecoded records; 23 theorems. Masks, shifts, BCD map, dispatch constants and length guards are regenerated from '
+       'a covered byte is rejected - for an info-area length byte: acceptance implies a declared length >= 1 unit inside the data with a zero sum over exactly that span, which contains the byte (0 and beyond-data rejected; length_byte_limit shows no reader can do more), on the file and the device path; OEM C0h records of other manufacturers are undecoded records; today\'s source is equated with the intended variant over the five AST-read forms (source_is_intended_variant, parse_encode_today; tables_match_storage_definition demands the dispatch guards with = some); 26 theorems. Masks, shifts, BCD map, dispatch constants and length guards are regenerated from '
        'fru.py/fields.py on every run; images are encoded by an independent Lean encoder written from the storage definition.',
   note='translator harness/translate/fru.py; Model/FruParse.lean hand-written and tied by differential run (bytes, '
        'array, list, file, device path); datetime arithmetic modelled; five probed variant flags with counter-example theorems; device path modelled (Model/FruDevice) and tied; translator also recognises the dispatch, length-guard and area-length shapes; device histories on one long-lived Ipmi object: image A read, contents replaced by image B behind the back of the library / by a complete / a faulted-and-resumed / a tail-first write_fru_data, other FRU ids in between, read again => B\'s view',
@@ -183,7 +183,7 @@ ROWS = {
        'formula, the two negative encodings with the variable their "< 0" test reads, both guards and '
        '_convert_complement are regenerated from the AST of sdr.py on every run (Gen/SensorExpr.lean) and proved equal '
        'to the model\'s expressions (gen_*_eq). Tie: all 256 exponent pairs x formats x raw bytes against the real '
-       'float code with a condition-aware error bound.',
+       'float code with a condition-aware error bound; thorough: the full product boundary M x boundary B x (K1,K2) x format, 184 320 records x 16 raws.',
   note='IEEE-754 rounding of the Python arithmetic is modelled, not verified (model is exact Rat; near-half cases counted '
        'as ambiguous); transcendental functions are parameters; linearisation table regenerated each run; expression '
        'translator harness/translate/sdrexpr.py (fail closed; int(round()) an opaque cut); control skeleton (guard '
@@ -207,8 +207,8 @@ ROWS = {
        'command line through an argv-printing stub; ipmitool output format taken from its sources; histories of 2..4 calls on ONE Ipmitool object with credentials / host / privilege / session changed in between, each call judged against the argument vector its CURRENT settings demand (pristine child per history)',
   tech='Lean 4 proof (shell-quoting inertness by induction on the string; printer/parser inversion) + translator + correspondence through the real shell'),
  'C20': dict(
-  text='41 Lean theorems over the command table regenerated from pyipmi/ipmitool.py: every entry resolves to an existing '
-       'operation with an acceptable arity (kernel-decided over the whole generated table), chassis power sub-commands '
+  text='44 Lean theorems over the command table regenerated from pyipmi/ipmitool.py: every entry resolves to an existing '
+       'operation with an acceptable arity (kernel-decided over the whole generated table; table_is_intended: today\'s table IS the repaired one, so a regression of one entry stops the build), chassis power sub-commands '
        'map to distinct option codes, longest-prefix lookup is correct, getopt separates options as given, raw '
        'sends/prints exactly; every class of pyipmi.errors and a socket time-out, raised by open, a request or close, ends main() with a message and status 1 (error_classes_complete, all_errors_exit_nonzero, main_reports_every_failure); numeric arguments are accepted in decimal and hex at every converting position; the printing handlers raise no Python error on a link-less channel, every SDR type of IPMI ch. 43, sensors flagged unavailable and raw values outside the domain of a non-linear function; as-shipped counter-example theorems for each. Tie: main() run in-process for every entry against the direct API '
        'call on an identical BMC stub.',
